@@ -142,6 +142,9 @@ def canon_result(x, depth=0):
     x = norm(x)
     if x is None or isinstance(x, (bool, int, float, complex, str)):
         return x
+    if isinstance(x, np.ma.MaskedArray):
+        x = np.ma.filled(x.astype(float), np.nan) \
+            if x.dtype.kind in "fiub" else np.asarray(x)
     if isinstance(x, np.ndarray):
         return x
     if isinstance(x, np.generic):
@@ -171,6 +174,10 @@ def seed_all(s=12345):
 # --------------------------------------------------------------------------
 
 
+#  (input name, form) applied by Driver.arr - see mc/forms.py
+FORM = None
+
+
 class Driver:
     """Base class; subclasses fill in the class-specific parts."""
     name = "?"
@@ -189,6 +196,9 @@ class Driver:
         if not hasattr(self, "last_inputs"):
             self.last_inputs = {}
         self.last_inputs[name] = a
+        if FORM is not None and FORM[0] == name:
+            from . import forms
+            return forms.convert(a, FORM[1])
         return a
 
     def models(self, tier):
@@ -780,6 +790,9 @@ def climate_data(anomalies=False, window=None, T=10, time_cycle=5,
     grid = GeoGrid(time_seq=np.arange(T), lat_seq=np.array(LAT6, float),
                    lon_seq=np.array(LON6, float), silence_level=3)
     obs = obs.astype(float)
+    if FORM is not None and FORM[0] == "observable":
+        from . import forms
+        obs = forms.convert(obs, FORM[1])
     if rec is not None:
         rec["observable"] = obs
     return ClimateData(observable=obs, grid=grid,
